@@ -71,6 +71,17 @@ class Listener(ConsumerRebalanceListener):
         self.net.ev("cb_assigned_end", c=self.name, gen=g, member=m, assignment=snap)
 
 
+API_ERROR_CODES = {
+    "FindCoordinator": [15],
+    "JoinGroup": [14, 15, 16, 25],
+    "SyncGroup": [15, 16, 22, 25, 27],
+    "Heartbeat": [15, 16, 22, 25, 27],
+    "OffsetCommit": [14, 15, 16, 22, 25, 27],
+    "OffsetFetch": [14, 15, 16],
+    "LeaveGroup": [15, 16, 25],
+}
+
+
 def run_scenario(sc):
     import random
     rng = random.Random(sc.get("seed", 0))
@@ -110,7 +121,16 @@ def run_scenario(sc):
             f = plan.get(counter["n"])
             if f is None:
                 return None
-            return Fault(f["kind"], f.get("code", 0), f.get("delay", 0.0))
+            code = f.get("code", 0)
+            if f["kind"] == "error":
+                # only the error codes a Kafka group coordinator can put in a reply of this API
+                # (GroupCoordinator.scala: e.g. Heartbeat/SyncGroup never carry LOAD_IN_PROGRESS - the broker
+                # answers NONE resp. REBALANCE_IN_PROGRESS while loading; JoinGroup never carries
+                # ILLEGAL_GENERATION); a code outside that set is mapped into it deterministically
+                valid = API_ERROR_CODES.get(info["api"])
+                if valid and code not in valid:
+                    code = valid[code % len(valid)]
+            return Fault(f["kind"], code, f.get("delay", 0.0))
         c.fault_for = fault_for
         c.fault_counter = counter
         return c
@@ -184,6 +204,18 @@ def run_scenario(sc):
                                   partition_assignment_strategy=[ASSIGNORS[a] for a in cfg.get("assignors", ["range"])])
                         if cfg.get("group_instance_id"):
                             kw["group_instance_id"] = cfg["group_instance_id"]
+                        if cfg.get("bad_rids"):
+                            # a user deserializer that fails once (transiently) on chosen records
+                            pending_bad = set(cfg["bad_rids"])
+
+                            def deser(b, pending_bad=pending_bad):
+                                r = _rid(b)
+                                if r in pending_bad:
+                                    pending_bad.discard(r)
+                                    net.ev("deserializer_error", c=name, rid=r)
+                                    raise ValueError(f"cannot deserialize record {r}")
+                                return b
+                            kw["value_deserializer"] = deser
                         c = AIOKafkaConsumer(**kw)
                         holder["c"] = c
                         consumers[name] = c
@@ -310,8 +342,8 @@ def run_scenario(sc):
                 "commit_ret", "subscribe", "cluster_event", "join_request", "join_complete", "sync_request",
                 "sync_complete", "heartbeat", "leave_request", "offset_commit", "session_expired",
                 "prepare_rebalance", "coordinator_move", "member_dropped_at_rebalance_timeout", "member_id_assigned")
-        out["trace"] = [e for e in net.trace if e["ev"] in keep or (e["ev"] == "request" and e["api"] in (
-            "JoinGroup", "SyncGroup", "LeaveGroup", "OffsetCommit", "FindCoordinator"))]
+        out["trace"] = [e for e in net.trace if e["ev"] in keep or (e["ev"] == "request" and (e["api"] in (
+            "JoinGroup", "SyncGroup", "LeaveGroup", "OffsetCommit", "FindCoordinator") or e.get("fault")))]
         out["vtime"] = loop.time()
         return out
 
